@@ -27,6 +27,7 @@ structure St where
   st : OciSt := OciSt.empty
   view : Option OciSt := none
   stray : List Nat := []
+  strayLive : List Nat := []      -- specification: stray files written and not yet collected
   -- abstract specification state (C06): content set and tag map
   absContent : List Nat := []
   absTags : List (Nat × Nat × Nat) := []     -- name ↦ (node, ann)
@@ -187,7 +188,7 @@ def step (s : St) (toks : List String) : Option (St × String × String) :=
                      subject := sub ++ s.subject, univ := s.univ ++ [n] }, "ok", "ok")
   | ["stray", i] => do
       let i ← i.toNat?
-      some ({ s with stray := i :: s.stray, st := { s.st with blobs := i :: s.st.blobs } }, "ok", "ok")
+      some ({ s with stray := i :: s.stray, strayLive := i :: s.strayLive, st := { s.st with blobs := i :: s.st.blobs } }, "ok", "ok")
   | ["push", n] => do
       let n ← n.toNat?
       let (st', r) := s.st.push c n
@@ -245,8 +246,9 @@ def step (s : St) (toks : List String) : Option (St × String × String) :=
       let (st', r) := s.st.gc c Gen.gcWalkAdvances Gen.gcRepeatsReferrerPass Gen.gcSavesIndex s.fuel
       let keep := if s.judgeGC then specGCKeep s else st'.blobs
       let abs := s.absContent.filter (keep.contains ·)
-      -- strays are garbage by definition
-      some ({ s with st := st', absContent := abs, view := none }, showU r, "ok")
+      -- strays are garbage by definition: a collection that succeeds leaves none
+      let strays' := match r with | .ok _ => [] | .error _ => s.strayLive
+      some ({ s with st := st', absContent := abs, view := none, strayLive := strays' }, showU r, "ok")
   | ["gcpartial"] => some (s, "consistent", "consistent")   -- runtime comparison live vs reopened after an interrupted GC
   | ["gcfail"] => some (s, "err", "err")     -- a GC that returned an error: nothing changed
   | ["reopen"] =>
@@ -278,14 +280,16 @@ def step (s : St) (toks : List String) : Option (St × String × String) :=
       let absT := es.foldl (fun acc e => match e.2.1 with
         | some nm => (nm, e.1, e.2.2) :: acc.filter (·.1 != nm)
         | none => acc) []
-      some ({ s with st := st', stray := [], absContent := keep, absTags := absT, view := none }, "ok", "ok")
+      some ({ s with st := st', stray := [], strayLive := [], absContent := keep, absTags := absT, view := none }, "ok", "ok")
   | ["layout"] => some (s, "ok", "ok")
   | ["blobs"] =>
       let present := s.univ.filter (s.st.blobs.contains ·)
       some ({ s with why := s.blobsWhy }, showSet present, showSet (s.univ.filter (s.absContent.contains ·)))
   | ["strays"] =>
+      -- specification: the stray files written since the last collection are all still there
+      -- (nothing but GC removes them), and a collection leaves none
       let present := s.stray.filter (s.st.blobs.contains ·)
-      some (s, showSet present, "*")
+      some (s, showSet present, showSet s.strayLive)
   | q => do
       let m ← query s.st q
       some (s, m, specQuery s q)
